@@ -76,6 +76,52 @@ def check_args(m, durs):
     return None
 
 
+def loop_pairing_case(order):
+    """a for-loop with a delay of an indexed expression and a delay of a loop-invariant expression, in either order: every delay state
+    must be paired with ITS expression and duration by delay_arguments_function"""
+    from pymoca.backends.casadi.api import transfer_model
+    d_idx, d_inv = "y1[i] = delay(2 * x[i], qa);", "y2[i] = delay(3 * s, qb);"
+    body = (d_idx + " " + d_inv) if order == "indexed-first" else (d_inv + " " + d_idx)
+    txt = ("model M parameter Real qa = 1.5; parameter Real qb = 2.5; Real x[2]; Real s; Real y1[2]; Real y2[2]; "
+           "equation der(s) = -s; x[1] = s; x[2] = 4 * s; for i in 1:2 loop %s end for; end M;" % body)
+    with tempfile.TemporaryDirectory() as tmp:
+        with open(os.path.join(tmp, "M.mo"), "w") as f:
+            f.write(txt)
+        m = transfer_model(tmp, "M", {})
+    f = m.delay_arguments_function
+    rng = np.random.RandomState(5)
+    args = [rng.uniform(0.5, 2.0, size=(f.size1_in(i), f.size2_in(i))) for i in range(f.n_in())]
+    res = f(*args)
+    res = list(res) if isinstance(res, (list, tuple)) else [res]
+    names = [[v.symbol.name() for v in getattr(m, c)] for c in ("states", "der_states", "alg_states", "inputs", "constants", "parameters")]
+    env = {}
+    for lst, val, vars_ in zip(names, args[1:], [getattr(m, c) for c in ("states", "der_states", "alg_states", "inputs", "constants", "parameters")]):
+        flat = np.array(val).reshape(-1)
+        k = 0
+        for v in vars_:
+            n_ = v.symbol.numel()
+            env[v.symbol.name()] = flat[k:k + n_]
+            k += n_
+    s_val, x_val = float(env["s"][0]), env["x"]
+    # which delay state stands for which call: read it off the residual (y1 rows use the indexed delay's state)
+    # delay states are numbered in the order of the delay() calls in the source
+    kinds = ["indexed", "invariant"] if order == "indexed-first" else ["invariant", "indexed"]
+    expected = {"_pymoca_delay_%d" % j: kd for j, kd in enumerate(kinds)}
+    if sorted(m.delay_states) != sorted(expected):
+        return txt, "delay states %s" % list(m.delay_states)
+    for i, st in enumerate(m.delay_states):
+        e_val = np.array(res[2 * i]).reshape(-1)
+        d_val = float(np.array(res[2 * i + 1]).reshape(-1)[0])
+        if expected[st] == "indexed":
+            want_e, want_d = 2 * np.array(x_val), float(env["qa"][0])
+        else:
+            want_e, want_d = np.array([3 * s_val] * max(1, e_val.size)), float(env["qb"][0])
+        if e_val.size != np.array(want_e).size or not np.allclose(e_val, want_e) or abs(d_val - want_d) > 1e-12:
+            return txt, "delay state %s (the %s delay): delay_arguments_function gives expression %s duration %r, expected %s and %r" % (
+                st, expected[st], np.round(e_val, 6).tolist(), d_val, np.round(np.array(want_e), 6).tolist(), want_d)
+    return txt, None
+
+
 def main():
     payload = json.load(sys.stdin)
     tier = payload.get("tier", "quick")
@@ -96,6 +142,14 @@ def main():
     for o in ({"replace_constant_values": True}, {"detect_aliases": True}, {"replace_parameter_values": True, "replace_constant_values": True},
               {"detect_aliases": True, "replace_constant_values": True, "expand_mx": True}):
         cases += [([d], False, o) for d in EXTRA] + [(["2 * c", "2 * df"], False, o), (["p", "dd + 1"], False, o)]
+    for order in ("indexed-first", "invariant-first"):
+        n += 1
+        try:
+            txt, bad = loop_pairing_case(order)
+        except BaseException as e:  # noqa
+            txt, bad = "loop pairing model (%s)" % order, "%s: %s" % (type(e).__name__, str(e)[-200:])
+        if bad:
+            failures.append({"class": "delay", "input": txt, "observed": bad, "expected": "each delay state paired with its own expression and duration"})
     for durs, loop, opts in cases:
         n += 1
         txt, (verdict, info), m = run(durs, loop, opts)
@@ -119,7 +173,7 @@ def main():
                 break
     if payload.get("mode") == "bounded":
         print(json.dumps({"performed": True, "cases": n, "distinct_nontrivial": n, "failures": failures,
-                          "rule": "delay durations drawn from each category (literal, constant, parameter, fixed input | time, state, derivative, algebraic, non-fixed input, mixtures), one to three delays in both orders, inside and outside a for-loop, with replace_constant_values, and compound durations over constants / aliased inputs under replace_*_values and detect_aliases: the real transfer_model must reject exactly the disallowed ones; for accepted models delay_arguments_function is evaluated at a random point",
+                          "rule": "delay durations drawn from each category (literal, constant, parameter, fixed input | time, state, derivative, algebraic, non-fixed input, mixtures), one to three delays in both orders, inside and outside a for-loop, with replace_constant_values, and compound durations over constants / aliased inputs under replace_*_values and detect_aliases: the real transfer_model must reject exactly the disallowed ones; for accepted models delay_arguments_function is evaluated at a random point; a for-loop with an indexed and a loop-invariant delay in both orders: every delay state paired with its own expression and duration",
                           "bound": "%d models" % n}))
     else:
         f = failures[0] if failures else None
